@@ -13,6 +13,8 @@
 (*  sevmeta  : ovmf.extractSevOvmfMetadata                                 *)
 (*  tdxmeta  : ovmf.extractTDXMetadata + abi.TDXMetadataFromBytes          *)
 (*  tdxregion: a TD_HOB / TempMem section's memory size (allocation, loop) *)
+(*  tdxfv    : a firmware-volume section's data offset / size against the  *)
+(*             image (ovmf.validateTDXMetadataSections, tdxFwParser.parse) *)
 (*  guidtable: ovmf.GetFwGUIDTable / GetFwGUIDToBlockMap                   *)
 (*  certtable: SEV-SNP certificate table entry ranges (extractsev)         *)
 (*  sized    : eventlog size-prefixed readers                              *)
@@ -60,7 +62,19 @@ TdxMeta(r) ==
 \* ---- tdxregion: L, Z (memory size of a non-firmware-volume section), mode ----
 TdxRegion(r) ==
   IF Design # "legacy" /\ r.Z > r.L THEN Out("err", {}, 0, 0)               \* larger than the image: refused
+  ELSE IF r.ext /\ ~r.measureAll /\ r.Z > 0 THEN Out("err", {}, 0, 0)        \* flagged for extension but has no contents to extend
   ELSE Out("ok", {}, IF r.measureAll THEN r.Z ELSE 0, r.Z)
+
+\* ---- tdxfv: L (image length), O (data offset), S (data size) of a boot / configuration firmware
+\*      volume; the volume's bytes image[O : O+S] are copied into the region.  The check must hold in
+\*      the field's own width: "summed" (negative control) compares the wrapped sum with the length ----
+TdxFv(r) ==
+  IF Design = "summed"
+    THEN IF r.S = 0 \/ Wrap(r.O + r.S) > r.L THEN Out("err", {}, 0, 0)
+         ELSE LET a == Acc(r.O, Wrap(r.O + r.S)) IN
+              IF a.lo > a.hi \/ a.hi > r.L THEN Out("panic", {a}, 0, 1) ELSE Out("ok", {a}, r.S, 1)
+    ELSE IF r.O > r.L \/ r.S = 0 \/ r.L - r.O < r.S THEN Out("err", {}, 0, 0)
+         ELSE Out("ok", {Acc(r.O, r.O + r.S)}, r.S, 1)
 
 \* ---- sized: D declared size, R bytes remaining ----
 Sized(r) ==
@@ -90,7 +104,10 @@ EndoVerify(r) ==
   ELSE IF ~r.cert THEN "err"
   ELSE IF ~r.sig THEN "err"
   ELSE "ok"
-EndoSev(r) == IF ~r.parses \/ ~r.golden \/ ~r.sevsnp THEN "err" ELSE "ok"
+\* bundle: the SNP section's CA bundle: absent; two CERTIFICATE blocks (identity, author); the same two
+\* followed by bytes that are no PEM block; three blocks; no PEM at all.  Only "none" and "two" are
+\* well-formed; every other one is refused, in bounded time
+EndoSev(r) == IF ~r.parses \/ ~r.golden \/ ~r.sevsnp \/ r.bundle \notin {"none", "two"} THEN "err" ELSE "ok"
 EndoTdx(r) == IF ~r.parses \/ ~r.golden \/ ~r.tdx \/ ~r.tdxmeas THEN "err" ELSE "ok"
 EndoFields(r) ==
   LET v == EndoVerify(r) s == EndoSev(r) t == EndoTdx(r)
@@ -131,19 +148,24 @@ GuidTable(r) ==
 Rows ==
   CASE Which = "sevmeta" -> [p : {"sevmeta"}, L : 0 .. M - 1, O : 0 .. M - 1, S : 0 .. M - 1, Ln : 0 .. M - 1]
     [] Which = "tdxmeta" -> [p : {"tdxmeta"}, L : 0 .. M - 1, O : 0 .. M - 1, S : 0 .. M - 1]
-    [] Which = "tdxregion" -> [p : {"tdxregion"}, L : 1 .. M - 1, Z : 0 .. 4 * M, measureAll : BOOLEAN]
+    [] Which = "tdxregion" -> [p : {"tdxregion"}, L : 1 .. M - 1, Z : 0 .. 4 * M, measureAll : BOOLEAN, ext : BOOLEAN]
+    [] Which = "tdxfv" -> [p : {"tdxfv"}, L : {M \div 2}, O : 0 .. M - 1, S : 0 .. M - 1]
     [] Which = "certtable" -> [p : {"certtable"}, L : CtHdr .. M2 - 1, O : 0 .. M2 - 1, Ln : 0 .. M2 - 1]
     [] Which = "guidtable" -> [p : {"guidtable"}, L : 0 .. 39, T : 0 .. 39, E : 0 .. 39]
     [] Which = "sized" -> [p : {"sized"}, D : 0 .. M - 1, R : 0 .. M - 1]
     [] Which = "counted" -> [p : {"counted"}, D : 0 .. M - 1, R : 0 .. M - 1]
-    [] Which = "locator" -> [p : {"locator"}, L : 0 .. M - 1, term : BOOLEAN]
+    \* fill: what the name's code units are -- text, or nothing but NUL code units (then it is terminated
+    \* whatever its length); the decoder's verdict depends on length and terminator only
+    [] Which = "locator" -> {r \in [p : {"locator"}, L : 0 .. M - 1, term : BOOLEAN, fill : {"text", "nul"}] : r.fill = "nul" => r.term}
     [] Which = "endofields" -> {r \in [p : {"endofields"}, parses : BOOLEAN, golden : BOOLEAN, timestamp : BOOLEAN, late : BOOLEAN, prov : BOOLEAN,
-                                         cert : BOOLEAN, sig : BOOLEAN, sevsnp : BOOLEAN, tdx : BOOLEAN, tdxmeas : BOOLEAN] :
+                                         cert : BOOLEAN, sig : BOOLEAN, sevsnp : BOOLEAN, tdx : BOOLEAN, tdxmeas : BOOLEAN,
+                                         bundle : {"none", "two", "trailing", "three", "garbage"}] :
+                                 /\ (r.bundle # "none" => r.sevsnp /\ r.timestamp /\ r.prov /\ r.cert /\ r.tdx /\ r.tdxmeas)
                                  /\ (~r.parses => ~r.golden) /\ (~r.golden => ~r.timestamp /\ ~r.prov /\ ~r.cert /\ ~r.sevsnp /\ ~r.tdx)
                                  /\ (~r.parses => ~r.sig) /\ (~r.timestamp => ~r.late) /\ (~r.tdx => ~r.tdxmeas)}
 
 Parse(r) ==
-  CASE r.p = "sevmeta" -> SevMeta(r) [] r.p = "tdxmeta" -> TdxMeta(r) [] r.p = "tdxregion" -> TdxRegion(r)
+  CASE r.p = "sevmeta" -> SevMeta(r) [] r.p = "tdxmeta" -> TdxMeta(r) [] r.p = "tdxregion" -> TdxRegion(r) [] r.p = "tdxfv" -> TdxFv(r)
     [] r.p = "certtable" -> CertTable(r) [] r.p = "guidtable" -> GuidTable(r)
     [] r.p = "sized" -> Sized(r) [] r.p = "counted" -> Counted(r) [] r.p = "locator" -> Locator(r) [] r.p = "endofields" -> EndoFields(r)
 
@@ -151,7 +173,7 @@ Init == row \in Rows /\ out = [res |-> "pending"]
 Decide == out.res = "pending" /\ out' = Parse(row) /\ UNCHANGED row
 Spec == Init /\ [][Decide]_vars
 
-Size(r) == IF r.p \in {"sevmeta", "tdxmeta", "tdxregion", "locator", "certtable", "guidtable"} THEN r.L ELSE IF r.p \in {"sized", "counted"} THEN r.R ELSE 1
+Size(r) == IF r.p \in {"sevmeta", "tdxmeta", "tdxregion", "tdxfv", "locator", "certtable", "guidtable"} THEN r.L ELSE IF r.p \in {"sized", "counted"} THEN r.R ELSE 1
 Total == out.res \in {"pending", "ok", "err"}                                 \* never a panic
 MemSafe == out.res = "pending" \/ \A a \in out.accs : 0 <= a.lo /\ a.lo <= a.hi /\ a.hi <= Size(row)
 AllocBounded == out.res = "pending" \/ out.alloc <= Size(row) + 1
